@@ -146,4 +146,22 @@ SPEC = {
             {"name": "matrix", "test": "TestC19", "kind": "enum", "checks": [0, 0], "shards": [8, 14], "timeout": [900, 3600]},
         ],
     },
+    "C11": {
+        "level": "exploration",
+        "rule": "(enum) every word over the 20-letter alphabet {Activate, Deactivate, Attach(d), PushPull(d) with a change, Detach(d), Remove(d)} x 2 "
+                "clients x 2 documents, up to length 4 (quick) / 5 (thorough), one representative per client/document renaming class (42 190 / "
+                "~8.9e5 words; exhaustive:true within that bound; the length-6 scope the property names, ~1.7e7 canonical words, is sampled by "
+                "the random part), sent through raw RPC peers so that invalid calls reach the server; (random) words of length 6..10 biased "
+                "towards deep states. oracle: a reference automaton written from docs/design/document-client-lifecycle.md decides accept/reject "
+                "per call; a rejected call must not add stored operation rows; an accepted PushPull/Detach stores exactly its change; after "
+                "Remove every later response on that document carries the removed flag and its stored rows no longer grow, and a new attach of "
+                "the key gets a new document id; at the end the server's per-client document statuses equal the model's and a client that is "
+                "the only one still attached can collect all its garbage within 3 syncs (detached/deactivated clients do not hold back GC). "
+                "non-trivial = the word contains >=1 rejected call and >=1 accepted state-changing call; distinct = distinct word",
+        "assumptions": ["in-memory database backend", "Attach always uses a new Document instance (re-attaching a detached instance is documented as unsupported)"],
+        "parts": [
+            {"name": "enum", "test": "TestC11Enum", "kind": "enum", "checks": [0, 0], "shards": [8, 14], "timeout": [900, 7200]},
+            {"name": "random", "test": "TestC11Random", "checks": [1500, 20000], "shards": [4, 14], "timeout": [900, 7200]},
+        ],
+    },
 }
